@@ -371,6 +371,7 @@ func c14(r *h.Result, rng *h.Rng, tier string, replay string) error {
 	}
 	c14DirtyLogQL(r, rng.Fork(), n*2)
 	c14Retranslate(r, rng.Fork(), n)
+	c14Loop(r, rng.Fork(), n)
 	if err := c14Shape(r, rng.Fork(), rounds); err != nil {
 		return err
 	}
